@@ -124,6 +124,10 @@
 #[derive(Debug, Default)]
 pub struct TransientSource<T> {
     state: TransientSourceState<T>,
+    /// Whether the source currently held (the old one while a replacement is pending) is
+    /// registered with the poller. The state alone cannot tell: a source that asked to be
+    /// disabled stays in the `Disable` state after it has been unregistered.
+    registered: bool,
 }
 
 /// This is the internal state of the [`TransientSource`], as a separate type so
@@ -238,6 +242,7 @@ impl<T: crate::EventSource> From<T> for TransientSource<T> {
     fn from(source: T) -> Self {
         Self {
             state: TransientSourceState::Register(source),
+            registered: false,
         }
     }
 }
@@ -301,11 +306,13 @@ impl<T: crate::EventSource> crate::EventSource for TransientSource<T> {
         match &mut self.state {
             TransientSourceState::Keep(source) => {
                 source.register(poll, token_factory)?;
+                self.registered = true;
             }
             TransientSourceState::Register(source)
             | TransientSourceState::Disable(source)
             | TransientSourceState::Replace { new: source, .. } => {
                 source.register(poll, token_factory)?;
+                self.registered = true;
                 self.state.replace_state(TransientSourceState::Keep);
                 // Drops the disposed source in the Replace case.
             }
@@ -326,18 +333,30 @@ impl<T: crate::EventSource> crate::EventSource for TransientSource<T> {
             TransientSourceState::Keep(source) => source.reregister(poll, token_factory)?,
             TransientSourceState::Register(source) => {
                 source.register(poll, token_factory)?;
+                self.registered = true;
                 self.state.replace_state(TransientSourceState::Keep);
             }
             TransientSourceState::Disable(source) => {
-                source.unregister(poll)?;
+                // only once: the source stays in this state until it is registered again
+                if self.registered {
+                    source.unregister(poll)?;
+                    self.registered = false;
+                }
             }
             TransientSourceState::Remove(source) => {
-                source.unregister(poll)?;
+                if self.registered {
+                    source.unregister(poll)?;
+                    self.registered = false;
+                }
                 self.state.replace_state(|_| TransientSourceState::None);
             }
             TransientSourceState::Replace { new, old } => {
-                old.unregister(poll)?;
+                if self.registered {
+                    old.unregister(poll)?;
+                    self.registered = false;
+                }
                 new.register(poll, token_factory)?;
+                self.registered = true;
                 self.state.replace_state(TransientSourceState::Keep);
                 // Drops 'dispose'.
             }
@@ -350,15 +369,26 @@ impl<T: crate::EventSource> crate::EventSource for TransientSource<T> {
         match &mut self.state {
             TransientSourceState::Keep(source)
             | TransientSourceState::Register(source)
-            | TransientSourceState::Disable(source) => source.unregister(poll)?,
+            | TransientSourceState::Disable(source) => {
+                if self.registered {
+                    source.unregister(poll)?;
+                    self.registered = false;
+                }
+            }
             TransientSourceState::Remove(source) => {
-                source.unregister(poll)?;
+                if self.registered {
+                    source.unregister(poll)?;
+                    self.registered = false;
+                }
                 self.state.replace_state(|_| TransientSourceState::None);
             }
             TransientSourceState::Replace { new: _, old } => {
                 // only the old source is registered: the new one has not been registered yet,
                 // unregistering it would fail (or worse, remove somebody else's registration)
-                old.unregister(poll)?;
+                if self.registered {
+                    old.unregister(poll)?;
+                    self.registered = false;
+                }
                 self.state.replace_state(TransientSourceState::Register);
             }
             TransientSourceState::None => (),
